@@ -381,6 +381,8 @@ CLASS_ATTR_ALLOW = {
     ('ombott/router/radirouter.py', 'Route', 'filters'):
         'registry of filter constructors: configuration, written at set-up time only',
 }
+# module-level mutables that are handed to a callee on purpose, with the reason why that cannot couple requests
+ESCAPE_ALLOW = {}
 MUTABLE_CTORS = {'dict', 'list', 'set', 'defaultdict', 'OrderedDict', 'deque', 'bytearray', 'HeaderDict', 'FormsDict', 'SimpleCookie'}
 
 
@@ -495,6 +497,42 @@ def class_level_mutables(repo):
                                 'detail': (f'mutable default of parameter {prm.arg} (line {f.lineno}) is mutated in the body (lines {where}): '
                                            'one object shared by all calls (and threads) that rely on the default') if where
                                 else f'mutable default of parameter {prm.arg} (line {f.lineno}) is never mutated in the body'})
+    # ---- process-lifetime memoisation and module-level mutables handed to callees
+    MEMO = {'lru_cache', 'cache'}
+    n_funcs = 0
+    for root, _d, files in os.walk(pkg):
+        for fn in sorted(files):
+            if not fn.endswith('.py'):
+                continue
+            path = os.path.join(root, fn)
+            rel = os.path.relpath(path, repo)
+            tree = ast.parse(open(path, encoding='utf8').read())
+            # module-level names bound to a mutable display / constructor
+            mod_mut = {}
+            for st in tree.body:
+                if isinstance(st, ast.Assign) and len(st.targets) == 1 and isinstance(st.targets[0], ast.Name) and _is_mutable_value(st.value):
+                    mod_mut[st.targets[0].id] = st.lineno
+            for f in [n for n in ast.walk(tree) if isinstance(n, (ast.FunctionDef, ast.AsyncFunctionDef))]:
+                n_funcs += 1
+                for d in f.decorator_list:
+                    core = d.func if isinstance(d, ast.Call) else d
+                    nm = core.attr if isinstance(core, ast.Attribute) else core.id if isinstance(core, ast.Name) else None
+                    if nm in MEMO:
+                        out.append({'name': f'memo.{rel}:{f.name}', 'status': 'failed',
+                                    'detail': f'{ast.unparse(d)} on {f.name} (line {f.lineno}): a process-lifetime cache keyed by the arguments only - '
+                                              'results computed for one request / application are handed to later ones and every distinct key is retained'})
+                local = {a.arg for a in f.args.args + f.args.kwonlyargs}
+                for n in ast.walk(f):
+                    if isinstance(n, ast.Call):
+                        for a in list(n.args) + [k.value for k in n.keywords]:
+                            if isinstance(a, ast.Name) and a.id in mod_mut and a.id not in local:
+                                callee = ast.unparse(n.func)
+                                ok = ESCAPE_ALLOW.get((rel, f.name, a.id))
+                                out.append({'name': f'escape.{rel}:{f.name}.{a.id}', 'status': 'discharged' if ok else 'failed',
+                                            'detail': (f'allow-listed: {ok}' if ok else
+                                                       f'module-level mutable {a.id} (line {mod_mut[a.id]}) is handed to {callee}(...) in {f.name} (line {n.lineno}): '
+                                                       'the callee (e.g. the server, PEP 3333 allows it to modify the header list) may change an object '
+                                                       'shared by all requests')})
     out.append({'name': 'class_attr.scan_found_attributes', 'status': 'discharged' if n_attrs >= 3 else 'undecided',
                 'detail': f'{n_attrs} class-level mutable attributes in the package'})
     return out
